@@ -4,6 +4,7 @@
 package astx
 
 import (
+	"embed"
 	"fmt"
 	"os"
 	"path/filepath"
@@ -338,6 +339,31 @@ func CorpusFiles() (xgo, gofiles []string) {
 	sort.Strings(xgo)
 	sort.Strings(gofiles)
 	return
+}
+
+// Embedded regression corpus: minimised sources of past C17/C18 failures (always run first).
+//
+//go:embed corpus/*
+var embedded embed.FS
+
+// EmbeddedFiles lists the embedded corpus files.
+func EmbeddedFiles() []string {
+	ents, _ := embedded.ReadDir("corpus")
+	var res []string
+	for _, e := range ents {
+		res = append(res, e.Name())
+	}
+	sort.Strings(res)
+	return res
+}
+
+// ParseEmbedded parses one embedded corpus file.
+func ParseEmbedded(name string) (*Parsed, error) {
+	src, err := embedded.ReadFile("corpus/" + name)
+	if err != nil {
+		return nil, err
+	}
+	return SafeParse("/corpus/"+name, src)
 }
 
 // Parse parses one file (classfile kinds detected by extension like `xgo` does); a file with
